@@ -58,6 +58,7 @@ def paramToJson : Param → Json
   | .ang a => angToJson a
 
 def natJ (n : Nat) : Json := Json.num ⟨(n : Int), 0⟩
+def intJ (n : Int) : Json := Json.num ⟨n, 0⟩
 def natListToJson (l : List Nat) : Json := Json.arr (l.map natJ).toArray
 
 def gateToJson (g : Gate) : Json := Json.mkObj [
